@@ -47,16 +47,24 @@ Theorem C01_import_paths_sound i c args d :
 Proof. intros E. split; [eapply C11_once; exact E|eapply C11_never_imports_destination; exact E]. Qed.
 
 (* the full statement -- every accepted interface yields well-scoped output -- is false of
-   the code; two of the witnesses (D1: lower-case type parameter; D6: method named like a
-   generated accessor), evaluated on the model *)
+   the code; two of the witnesses (D6: method named like a generated accessor; D5: two
+   parameters with one exported form), evaluated on the model *)
 Definition src0 : pkg := mkPkg "example.com/x" "x".
 Definition cfg0 : config := mkConfig "" false false true.
+Definition t_int0 := TBasic "int" KInt false.
 Example C01_refuted :
   (let i := mkInput src0 [] None
-              [("L", LIface true true [mkTparam "k" (TAlias None "any" []) []]
-                            [mkMethod "Get" (mkSig [("key", TParam "k")] false [])])] in
-   match mock_run i cfg0 ["L"] with Ok d => failing d | _ => [] end = ["tparam_exported"]%string) /\
-  (let i := mkInput src0 [] None
               [("R", LIface true true [] [mkMethod "Reset" (mkSig [] false [])])] in
-   match mock_run i cfg0 ["R"] with Ok d => failing d | _ => [] end = ["method_name_clash"]%string).
+   match mock_run i cfg0 ["R"] with Ok d => failing d | _ => [] end = ["method_name_clash"]%string) /\
+  (let i := mkInput src0 [] None
+              [("F", LIface true true [] [mkMethod "M" (mkSig [("a", t_int0); ("A", t_int0)] false [])])] in
+   match mock_run i cfg0 ["F"] with Ok d => failing d | _ => [] end = ["fields_distinct"]%string).
 Proof. vm_compute. split; reflexivity. Qed.
+
+(* since the repair of D1 a lower-case type parameter is no longer a defect family *)
+Example C01_tparam_fixed :
+  let i := mkInput src0 [] None
+             [("L", LIface true true [mkTparam "k" (TAlias None "any" []) []]
+                           [mkMethod "Get" (mkSig [("key", TParam "k")] false [])])] in
+  match mock_run i cfg0 ["L"] with Ok d => failing d | _ => ["?"%string] end = [].
+Proof. vm_compute. reflexivity. Qed.
